@@ -67,6 +67,7 @@ Apply(s, t, o) ==
       [] o.op = "line_count" -> CountM(s, t)
       [] o.op = "lines" -> IterM(s, t)
       [] o.op = "slice" -> SliceM(s, t, o.line, o.c, o.n)
+      [] o.op = "clone" -> [st |-> SvInit, ret |-> 0]     \* Clone: same text, a FRESH index (as the code does); the session goes on with the clone
 \* the declarative answer to the same operation (history independent)
 Decl(t, o) ==
     CASE o.op = "get_line" -> DeclLine(t, o.i)
@@ -74,6 +75,7 @@ Decl(t, o) ==
       [] o.op = "lines" -> Lines(t)
       [] o.op = "slice" -> IF DeclLine(t, o.line) = <<>> THEN <<>>
                            ELSE SliceChars(DeclSlice(DeclLine(t, o.line)[1], o.c, o.n))
+      [] o.op = "clone" -> 0
 \* ---- large texts given as a repeated pattern ----
 \* text = (unit ++ sep) repeated n times, unit without terminators, sep one terminator (LF, CR or CR LF).
 \* LEMMA (checked by TLC for small n in MC_SourceView): it has n+1 lines, the first n equal to unit, the last empty.
@@ -85,6 +87,31 @@ RepDecl(unit, n, o) ==
       [] o.op = "line_count" -> RepCount(n)
       [] o.op = "slice" -> IF RepLine(unit, n, o.line) = <<>> THEN <<>>
                            ELSE SliceChars(DeclSlice(RepLine(unit, n, o.line)[1], o.c, o.n))
+      [] o.op = "clone" -> 0
+\* ---- long lines given as segments ----
+\* text = for each segment [ch, len, sep]: len copies of the (non-terminator) character ch, then the terminator
+\* sep (0 = LF, 1 = CR, 2 = CR LF).  Side condition SegsOK: a CR terminator is not followed by an EMPTY segment
+\* ending in LF / CR LF (the two would read as one CR LF).
+\* LEMMA (checked by TLC for small instances in MC_SourceView): line k is len_k copies of ch_k, plus a final empty line.
+SepText(c) == IF c = 0 THEN <<LF>> ELSE IF c = 1 THEN <<CR>> ELSE <<CR, LF>>
+SegUnit(g) == [k \in 1..g[2] |-> g[1]]
+SegText(segs) == FoldLeft(LAMBDA acc, g : acc \o SegUnit(g) \o SepText(g[3]), <<>>, segs)
+SegsOK(segs) == /\ \A k \in DOMAIN segs : segs[k][1] \notin {LF, CR} /\ segs[k][3] \in 0..2
+                /\ \A k \in 1..(Len(segs) - 1) : ~(segs[k][3] = 1 /\ segs[k + 1][2] = 0 /\ segs[k + 1][3] \in {0, 2})
+\* closed form of a slice of a line of len copies of ch (u = UTF-16 units per character); LEMMA SegSliceLemma
+SegSlice(ch, len, c, n) ==
+    LET u == U16(ch) IN
+    IF c = MAXU \/ n = MAXU \/ c + n > len * u THEN <<>>
+    ELSE IF n = 0 THEN << <<>> >>
+    ELSE << [k \in 1..(((c + n - 1) \div u) - (c \div u) + 1) |-> ch] >>
+SegLine(segs, i) == IF i < Len(segs) THEN << SegUnit(segs[i + 1]) >> ELSE IF i = Len(segs) THEN << <<>> >> ELSE <<>>
+SegDecl(segs, o) ==
+    CASE o.op = "get_line" -> SegLine(segs, o.i)
+      [] o.op = "line_count" -> Len(segs) + 1
+      [] o.op = "slice" -> IF o.line > Len(segs) THEN <<>>
+                           ELSE IF o.line = Len(segs) THEN SliceChars(DeclSlice(<<>>, o.c, o.n))
+                           ELSE SegSlice(segs[o.line + 1][1], segs[o.line + 1][2], o.c, o.n)
+      [] o.op = "clone" -> 0
 \* consistency of the index with the text
 IndexConsistent(s, t) ==
     /\ IsPrefix(s.cache, Lines(t))
